@@ -289,9 +289,7 @@ func genC06Rest(c *Ctx, leaves []string, mv func() (int, int)) {
 	for _, l := range lenKinds {
 		lens := []int{0, 1, 2, 3, 126, 127, 128, 129, 200, 254, 255, 256, 257}
 		// (the driver's stream model is quadratic in the input length: the 16-bit boundaries are kept few)
-		if l == "short" {
-			lens = append(lens, 32767, 32768)
-		}
+		// (32767 / 32768 / 65535 elements: c06SizeSweep)
 		if c.Thorough() && l == "ushort" {
 			lens = append(lens, 65535, 65536)
 		}
@@ -420,6 +418,9 @@ func genC06Rest(c *Ctx, leaves []string, mv func() (int, int)) {
 		}
 		c06Pkt(c, t.String(), genVal(c, t, true).String(), m, v, tr)
 	}
+
+	// S. every variable-length thing at n-1, n, n+1 for the powers of two 16..8192 (+ 32767/32768/65535)
+	c06SizeSweep(c)
 
 	// G2. histories of Marshal / Builder calls, all packets observed at the end
 	c06HistGen(c)
